@@ -1,5 +1,6 @@
 import Rcgen.Theorems.C01
 import Rcgen.Model.Pem
+import Rcgen.Model.Error
 /-
   C19 — private key material never leaks into public outputs or diagnostics.
   Model: a key pair is (public part, algorithm, private document, back-end rendering of the
@@ -71,18 +72,64 @@ theorem signer_result_only_in_signature (alg : SigAlg) (sign sign' : Signer) (tb
   obtain ⟨sig', _, e'⟩ := C01.signDer_signs_embedded_bytes _ _ _ _ h'
   exact ⟨sig, sig', e, e'⟩
 
-/-- error.rs `Display`: the text of an error is a function of the variant and, for the
-    variants that wrap one, of the foreign library's message — never of input bytes -/
-inductive ErrText where
-  | fixed (variant : String)
-  | foreign (variant : String) (message : String)
+/-! ### error texts (Model/Error.lean = error.rs `Display`, tied to the real texts on every run) -/
 
-def render : ErrText → String
-  | .fixed v => v
-  | .foreign v m => v ++ ": " ++ m
+/-- two error values of the same variant: equal up to their payload -/
+def sameVariant : ErrorV → ErrorV → Bool
+  | .invalidAsn1String a _, .invalidAsn1String b _ => a == b
+  | .invalidIpAddressOctetLength _, .invalidIpAddressOctetLength _ => true
+  | .ringKeyRejected _, .ringKeyRejected _ => true
+  | .pemError _, .pemError _ => true
+  | .x509 _, .x509 _ => true
+  | a, b => a == b
 
-theorem error_text_from_foreign_strings_only (v : String) (m : String) :
-    render (.foreign v m) = v ++ ": " ++ m ∧ ∀ v', render (.fixed v') = v' := ⟨rfl, fun _ => rfl⟩
+/-- **the text of an error is the variant's constant text around its one payload**: nothing else
+    enters it — no input bytes, no key, no state -/
+theorem error_text_is_constant_around_payload (e e' : ErrorV) (h : sameVariant e e' = true) :
+    e.display = e.prefix ++ e.payload ++ e.suffix ∧ e.prefix = e'.prefix ∧ e.suffix = e'.suffix := by
+  refine ⟨rfl, ?_, ?_⟩ <;>
+  · cases e <;> cases e' <;> simp_all [sameVariant, ErrorV.prefix, ErrorV.suffix]
+
+/-- fifteen of the twenty variants have no payload at all: their text is a constant -/
+theorem payload_free_variants (e : ErrorV) :
+    (match e with
+     | .invalidAsn1String _ _ | .invalidIpAddressOctetLength _ | .ringKeyRejected _ | .pemError _
+     | .x509 _ => True
+     | _ => e.payload = [] ∧ e.suffix = []) := by
+  cases e <;> simp [ErrorV.payload, ErrorV.suffix]
+
+/-- **what the text constructors put into `InvalidAsn1String`**: the text the caller handed to
+    that very call (three types), or a fixed message (`BmpString`); `UniversalString` has no error -/
+theorem str_ctor_error_payload (k : StrKind) (s : List Char) (e : ErrorV)
+    (h : strCtorError k s = some e) :
+    ctor k s = none ∧ (e.payload = utf8 s ∨ e.payload = badUtf16) ∧ k ≠ .universal := by
+  unfold strCtorError at h
+  cases hc : ctor k s with
+  | some b => simp [hc] at h
+  | none =>
+    simp only [hc] at h
+    cases k <;> simp at h <;> subst h <;> simp [ErrorV.payload]
+
+/-- the byte-level constructors never echo the bytes they refuse -/
+theorem bytes_ctor_error_payload (b : Bytes) (e : ErrorV) :
+    (bmpBytesError b = some e → e = .invalidAsn1String .bmp badUtf16) ∧
+    (universalBytesError b = some e → e = .invalidAsn1String .universal badUtf32) := by
+  constructor
+  · intro h; unfold bmpBytesError at h; split at h <;> simp at h; exact h.symm
+  · intro h; unfold universalBytesError at h; split at h <;> simp at h; exact h.symm
+
+/-- **the text kept of a PEM parser error does not depend on what the parser quotes** (the BEGIN /
+    END tags and the header it found — in a damaged key file, the key's own base64) -/
+theorem pem_error_ignores_quoted (b e b' e' h h' : Bytes) :
+    pemErrorOf (.mismatchedTags b e) = pemErrorOf (.mismatchedTags b' e') ∧
+    pemErrorOf (.invalidHeader h) = pemErrorOf (.invalidHeader h') := ⟨rfl, rfl⟩
+
+example : (ErrorV.invalidAsn1String .printable (txt "a*")).display = txt "Invalid PrintableString: 'a*'" := by
+  decide +kernel
+example : (ErrorV.invalidIpAddressOctetLength 123).display =
+    txt "Invalid IP address octet length of 123 bytes" := by decide +kernel
+example : strCtorError .printable ['a', '*'] = some (.invalidAsn1String .printable [97, 42]) := by
+  decide +kernel
 
 /-! non-vacuity: two different documents, one view -/
 example (H : Hashes) (k : KeyPairM) : view H { k with doc := [1, 2, 3] } = view H { k with doc := [] } := rfl
